@@ -539,7 +539,7 @@ def r8(ctx, rep):
 
 
 def r9(ctx, rep):
-    rep.rule("C04.R9", "a RANGE frame with offsets is emitted only together with an ORDER BY", floor=1)
+    rep.rule("C04.R9", "a RANGE frame with offsets is emitted only together with an ORDER BY", floor=2)
     syn = ctx.syn
     f = syn.fn("gen_expr::translate_windowed", crate="prqlc")
     # a rejection (`return Err`) whose condition tests the Range kind, an empty order and the bounds, placed before the WindowSpec is built
@@ -549,6 +549,19 @@ def r9(ctx, rep):
         if n.get("k") == "if" and n["l"] < spec_line and any(r.get("k") == "return" and "Err" in show(r.get("e"), maxdepth=4) for r in walk(n["t"])):
             c = show(n["c"], maxdepth=12)
             ok = ok or ("WindowKind::Range" in c and "is_empty()" in c and ("range.start" in c or "range.end" in c))
+    # which bounds count as "no offset": only an absent bound and the literal 0 (CURRENT ROW); every pattern over an integer bound inside the
+    # function's offset test must be exactly `0`
+    pats = []
+    for n in walk(f["body"]):
+        for key in ("pat",):
+            p_ = n.get(key) if n.get("k") in ("macro", "let") else None
+            if isinstance(p_, dict):
+                for x in walk(p_):
+                    if x.get("k") == "p_ts" and last_seg(x["p"]) == "Integer" and x.get("e") and n["l"] < spec_line:
+                        pats.append(x["e"][0])
+    loose = [show(x) for x in pats if not (x.get("k") == "lit" and str(x.get("v")) == "0")]
+    rep.check(bool(pats) and not loose, "range-needs-sort:zero-only", f"in translate_windowed's test for a bound with an offset, integer bounds are matched by {[show(x) for x in pats]}: only the literal `0` (CURRENT ROW) is "
+              f"not an offset; {loose} also lets negative / other bounds through (`range:-2..0` without a sort compiles to `RANGE BETWEEN 2 PRECEDING ..` with no ORDER BY)", file=f["file"], line=f["l"], fn=f["path"])
     rep.check(ok, "range-needs-sort", "translate_windowed must reject a frame of kind Range with a numeric offset when there is no sort key: `window range:-2..0 (..)` without a `sort` compiled to "
               "`RANGE BETWEEN 2 PRECEDING AND CURRENT ROW` with no ORDER BY, which databases reject (and which has no defined meaning)", file=f["file"], line=f["l"], fn=f["path"])
 
